@@ -63,3 +63,28 @@ Example C06_names_example :
   Table.denote true t = PDict [("schema", PStr "Dev"); ("table_name", PStr "Order");
                                ("columns", PList [PDict (cdict "Comment" "INT" PNone cs0); PDict (cdict "UserName" "text" PNone cs0)]); ("checks", PList [])].
 Proof. vm_compute. repeat split. Qed.
+
+(* ---------- type, domain and attribute names ----------------------------------------------------------------------------------------------------
+   The schema and name of every CREATE TYPE / CREATE DOMAIN of the value-list and object-type fragments, and the name of every attribute
+   of an object type, are reported as written ([nms false s = s]) and, with normalize_names=True, as [normalize_id s]. *)
+From SDP Require TypeDom TypeDomProofs TypeObj TypeObjProofs.
+Theorem C06_type_domain_names : forall d norm silent, TypeDom.wf norm d = true ->
+  exists e, parse_lexemes norm silent (TypeDom.lexemes d) = Ok (Some (PDict e)) /\
+            dict_get e "schema" = Some (match TypeDom.d_schema d with Some s => PStr (nms norm s) | None => PNone end) /\
+            dict_get e (if TypeDom.d_type d then "type_name" else "domain_name") = Some (PStr (nms norm (TypeDom.d_name d))).
+Proof.
+  intros d norm silent H. rewrite (TypeDomProofs.typedom_parse d norm silent H). unfold TypeDom.denote.
+  destruct (TypeDom.d_type d); (eexists; split; [reflexivity|]; split; [destruct (TypeDom.d_schema d); reflexivity|reflexivity]).
+Qed.
+Print Assumptions C06_type_domain_names.
+Theorem C06_object_type_names : forall o norm silent, TypeObj.wf norm o = true ->
+  exists e, parse_lexemes norm silent (TypeObj.lexemes o) = Ok (Some (PDict e)) /\
+            dict_get e "schema" = Some (match TypeObj.o_schema o with Some s => PStr (nms norm s) | None => PNone end) /\
+            dict_get e "type_name" = Some (PStr (nms norm (TypeObj.o_name o))) /\
+            forall a, In a (TypeObj.o_attrs o) -> exists rest, TypeObj.attr_value norm a = PDict (("name", PStr (nms norm (TypeObj.at_name a))) :: rest).
+Proof.
+  intros o norm silent H. rewrite (TypeObjProofs.typeobj_parse o norm silent H). unfold TypeObj.denote.
+  eexists; split; [reflexivity|]; split; [destruct (TypeObj.o_schema o); reflexivity|]. split; [reflexivity|].
+  intros a _. unfold TypeObj.attr_value. eexists. reflexivity.
+Qed.
+Print Assumptions C06_object_type_names.
